@@ -1380,6 +1380,12 @@ class TangentVector(PointPair):
 
         product = utils.apply_bilinear(v1, v2, self.minkowski)
 
+        #(x, v) and (-x, -v) are the same tangent vector: if the two
+        #basepoints are stored on opposite sheets of the hyperboloid,
+        #one of the vectors has to be negated before comparing
+        sheets = utils.apply_bilinear(self.point, other.point, self.minkowski)
+        product = product * np.where(sheets > 0, -1, 1)
+
         #clamp to combat roundoff error: |<v1,v2>| <= 1 for unit
         #tangent vectors, but the computed product can fall just outside
         return np.arccos(np.clip(product, -1, 1))
